@@ -284,6 +284,7 @@ def run_units(units, ctx):
         else:
             if ctx.expired():
                 res.count('B/units_skipped_deadline')
+                res.add('B/skipped_units', json.dumps(u))
                 continue
             t0 = time.time()
             try:
@@ -293,6 +294,8 @@ def run_units(units, ctx):
             except Exception:
                 res.violation('exception in exactness unit', dict(u, seed=ctx.seed, tier=ctx.tier), traceback.format_exc()[-1800:])
             res.count('ms/' + u['kind'], int(1000 * (time.time() - t0)))
+            res.maximum('B/slowest_unit_s', round(time.time() - t0, 1))
+            res.maximum('B/last_unit_done_s', round(time.time() - (ctx.deadline - BUDGET_S[ctx.tier]), 1))
     return res
 
 
@@ -380,7 +383,8 @@ def finalize(m, tier, seed):
                               units=c.get('B/units', 0), units_skipped_deadline=c.get('B/units_skipped_deadline', 0) + c.get('B/units_cut_by_deadline', 0),
                               reference_kinds=sorted(m.sets.get('B/kinds', ())), schemes=sorted(m.sets.get('B/schemes', ())), rejected_kinds=sorted(m.sets.get('B/rejected_kinds', ())),
                               topology_kinds=sorted(m.sets.get('B/topology_kinds', ())), exhaustive=sorted(m.sets.get('B/exhaustive', ())),
-                              ref_degree_pairs=len(m.sets.get('B/ref_degree', ()))))
+                              ref_degree_pairs=len(m.sets.get('B/ref_degree', ())), skipped_units=sorted(m.sets.get('B/skipped_units', ())),
+                              slowest_unit_s=m.maxima.get('B/slowest_unit_s'), last_unit_done_s=m.maxima.get('B/last_unit_done_s')))
     sc, mon, exa = cov['sample_cases'], cov['monitors'], cov['exactness']
     need_kinds = ['new', 'custom', 'topomul', 'topotake', 'locate', 'mul', 'add', 'take', 'subset', 'zip', 'rename']
     why = []
